@@ -14,7 +14,7 @@ extensions, non-ASCII letters, symlinks to files, to directories, chains, owner 
 each X.html as /X, the special routes, and near misses (missing name, doubled slash, slash after a file, letter-case change, name prefix), each with the suffixes '', '?q=1', '#f', '?a=b#c'. \
 Oracle M-LOOKUP (std::fs on the materialised tree) + M-MIME (harness's transcription of the extension table): selected file -> 200, body byte-identical, Content-Length = size, Content-Type = type of the selected name; \
 nothing selected -> 404 without any other tree file's marker and without the directory's entry names; suffix variants equal the plain response modulo the timestamp; legacy entry point agrees on plain files. \
-Non-trivial = selected through directory index, .html fallback or symlink, a file >= 8 KiB, an empty file, a non-ASCII name, or a near miss; distinct by (tree, path); counted per request.",
+ A quarter of the trees are served by the real release binary over loopback (class served-by-the-real-binary), the rest by Server::process on the mock transport; same oracle. Non-trivial = selected through directory index, .html fallback or symlink, a file >= 8 KiB, an empty file, a non-ASCII name, or a near miss; distinct by (tree, path); counted per request.",
         &["tolerances: a directory without index whose name + '.html' exists may answer 404 or that file; doubled slashes and a slash after a file may answer the file or 404; a symlink may be typed by its own or its target's extension; \
 an extension in other letter case may be typed by the table's lower-case entry or as octet-stream; .oga may be audio/oga (rws's constant) or audio/ogg"],
         if tier == Tier::Quick { 900 } else { 14400 },
@@ -22,12 +22,14 @@ an extension in other letter case may be typed by the table's lower-case entry o
 }
 
 #[derive(Clone, Debug, Serialize, Deserialize)]
-pub struct Case { pub tree: TreeSpec, pub only_path: Option<String> }
+pub struct Case { pub tree: TreeSpec, pub only_path: Option<String>,
+    /// the production-entry requests of this tree go to the real binary (started in the tree's root) instead of Server::process on the mock transport
+    #[serde(default)] pub binary: bool }
 
 pub const SUFFIXES: [&str; 4] = ["", "?q=1", "#f", "?a=b#c"];
 
 fn get(path: &str, entry: Entry) -> (Vec<u8>, Result<Result<(), String>, (String, String)>) {
-    let o = inproc::serve(&inproc::get(path), Transport::default(), 10000, AppKind::Real, entry);
+    let o = inproc::serve_routed(&inproc::get(path), true, entry); // through the binary whenever check_tree has started one
     (o.out, o.result)
 }
 
@@ -65,6 +67,7 @@ fn body_of(out: &[u8]) -> Option<(mhttp::Resp, Vec<u8>)> { mhttp::parse(out).ok(
 pub fn check_tree(ctx: &Ctx, c: &Case, count: bool) -> Verdict {
     let tree = match Tree::materialise(&c.tree, &crate::fw::scratch_base()) { Ok(t) => t, Err(e) => return Verdict::fail("tree-materialisation-failed", e.to_string()) };
     if std::env::set_current_dir(&tree.root).is_err() { return Verdict::fail("chdir-failed", "".to_string()); }
+    if c.binary { if let Err(e) = inproc::binary_start(&tree.root) { ctx.inconclusive(&format!("real binary did not start: {}", e)); } }
     let builtin_404 = body_of(&get("/surely-missing-rwsv-probe", Entry::Process).0).map(|(_, b)| b).unwrap_or_default();
     let markers: Vec<(String, String)> = tree.files.iter().map(|f| (f.url.clone(), f.marker.clone())).collect();
     let paths = derive_paths(&tree);
@@ -77,6 +80,7 @@ pub fn check_tree(ctx: &Ctx, c: &Case, count: bool) -> Verdict {
         let (plain_out, plain_res) = get(path, Entry::Process);
         evals += 1;
         *classes.entry(kind).or_insert(0) += 1;
+        if c.binary { *classes.entry("served-by-the-real-binary").or_insert(0) += 1; }
         if let Err((m, loc)) = &plain_res { problems.push((format!("panic:{}:{}", super::common::panic_module(loc), m), format!("GET {} panicked at {}", path, loc))); break 'outer; }
         let (resp, body) = match body_of(&plain_out) { Some(x) => x, None => { problems.push(("unparseable-response".into(), format!("GET {}", path))); break 'outer; } };
         let mut nt = kind.starts_with("near-miss");
@@ -198,6 +202,8 @@ pub fn check_tree(ctx: &Ctx, c: &Case, count: bool) -> Verdict {
         *r.sections.entry("requests".into()).or_insert(0) += evals;
     }
     let _ = nontrivial;
+    inproc::binary_stop();
+    for t in inproc::binary_trouble() { ctx.inconclusive(&format!("exchange with the real binary did not complete: {}", t)); }
     let _ = std::env::set_current_dir("/");
     ctx.judge(problems, false, vec![])
 }
@@ -207,7 +213,7 @@ pub fn run(ctx: &Ctx) {
     *ctx.auto_sample.borrow_mut() = false;
     let strat = {
         use proptest::prelude::*;
-        tree_strategy(ctx.tier == Tier::Thorough).prop_map(|tree| Case { tree, only_path: None })
+        (tree_strategy(ctx.tier == Tier::Thorough), proptest::bool::weighted(0.25)).prop_map(|(tree, binary)| Case { tree, only_path: None, binary })
     };
     ctx.prop("trees", ctx.share(ctx.scale(128, 3000)), strat, |c| check_tree(ctx, c, !*ctx.shrinking.borrow()));
 }
